@@ -1863,6 +1863,58 @@ def composite_stream(ctx, scratch):
                                          malformed=mc['malformed'], flavour=mc['flavour'], meta=mc['meta'])
 
 
+def makefree_stream(ctx, scratch):
+    """the documented composite `makefree+file` chemistry WITH gas sub-sections: every [[gas]] sub-section reaches the built
+    chemistry, exactly as `enhance_class(ChemistryFile, MakeFreeMixin, ...).addGas(...)` through the library"""
+    from taurex.parameter import ParameterParser
+    from taurex.mixin import enhance_class, MakeFreeMixin
+    from taurex.chemistry import ChemistryFile, ConstantGas
+    rng = ctx.rng
+    aux = os.path.join(scratch, 'aux')
+    nl = 6
+    for it in range(ctx.n(4, 24)):
+        base_gases = ['H2O', 'CH4', 'H2', 'He']
+        tab = np.stack([np.full(nl, 10 ** rng.uniform(-6, -3)), np.full(nl, 10 ** rng.uniform(-6, -3)),
+                        np.full(nl, 0.8), np.full(nl, 0.19)], axis=1)
+        cf = os.path.join(aux, 'mf_chem_%d.dat' % it)
+        np.savetxt(cf, tab)
+        pool = ['CH4', 'TiO', 'CO2', 'NH3', 'H2O', 'VO']
+        subs = [str(x) for x in rng.choice(pool, size=int(rng.integers(1, 4)), replace=False)]
+        mixes = {g: float(10 ** rng.uniform(-7, -3)) for g in subs}
+        f = [('Chemistry', dict(scalars=[('chemistry_type', rcase(rng, 'makefree') + '+' + rcase(rng, 'file')), ('filename', cf),
+                                         ('gases', list(base_gases))],
+                                subs=[(g, [('gas_type', 'constant'), ('mix_ratio', repr(mixes[g]))]) for g in subs]))]
+        path = os.path.join(scratch, 'makefree.par')
+        write_file(path, f)
+        small = dict(kind='makefree', file=f)
+        ctx.case(key=('makefree', tuple(sorted(subs))), bucket='stream:makefree+file-with-gases', sample=dict(subs=subs))
+        try:
+            pp = ParameterParser()
+            pp.read(path)
+            chem = pp.generate_chemistry_profile()
+            lib = enhance_class(ChemistryFile, MakeFreeMixin, gases=list(base_gases), filename=cf)
+            for g in subs:
+                lib.addGas(ConstantGas(g, mix_ratio=mixes[g]))
+            T, P = np.full(nl, 1000.0), np.logspace(5, 0, nl)
+            chem.initialize_chemistry(nl, T, P)
+            lib.initialize_chemistry(nl, T, P)
+            got, want = list(chem.gases), list(lib.gases)
+            # public view of the added gases: each is a fitting parameter named after its molecule, holding its mix ratio
+            fp_got = {k: float(v[2]()) for k, v in chem.fitting_parameters().items()}
+            fp_want = {k: float(v[2]()) for k, v in lib.fitting_parameters().items()}
+            ok = sorted(got) == sorted(want) and fp_got == fp_want and all(g in fp_got for g in subs) and \
+                C.close(np.asarray(chem.mixProfile, float).ravel(), np.asarray(lib.mixProfile, float).ravel(), rel=1e-12)
+        except Exception as e:  # noqa
+            ctx.violation('makefree-raises', 'building chemistry_type = makefree+file with gas sub-sections raised %r' % (e,),
+                          small)
+            continue
+        ctx.disagreements_checked += 1
+        if not ok:
+            ctx.violation('makefree-subsections-dropped', 'the gas sub-sections of a makefree+file chemistry section did not '
+                          'reach the chemistry as they do through the library (gases from the file %r, through the library %r)'
+                          % (got, want), small)
+
+
 def case_stream(ctx):
     """selectors are case-insensitive (the documentation itself writes `Simple`, `Simple`, `custom`): the real
     determine_klass must resolve every lower-case keyword, written in any letter case, to the same class"""
@@ -2086,6 +2138,7 @@ def run(ctx):
         case_stream(ctx)
         transform_stream(ctx)
         composite_stream(ctx, s.scratch)
+        makefree_stream(ctx, s.scratch)
         fg = FileGen(rng, s.scratch)
         n = ctx.n(1500, 24000)
         for i in range(n):
@@ -2144,6 +2197,8 @@ def replay(ctx, case):
             lookup_stream(ctx)
         elif kind == 'case':
             case_stream(ctx)
+        elif kind == 'makefree':
+            makefree_stream(ctx, s.scratch)
         elif kind in ('cli', 'cli_instrument'):
             opac = make_opacities(s.scratch, np.random.default_rng(int(case.get('opac_seed', 0))))
             c = dict(case)
